@@ -17,8 +17,8 @@ def build(ctx):
 
 def log(ctx, name, nlines, stopmode, tier, defs, timeout=600):
     nb = 2 * nlines + 5
-    ctx.add(Harness(name, VERIF + '/harness/C28_log.c', defines=defs + ['NLINES=%d' % nlines, 'STOPMODE=%d' % stopmode, 'VF_MAXCOPY=4'], unwind=4,
-                    unwindset=[LOOP + '.0:%d' % nb, 'sched.0:%d' % (nlines + 4), 'sched.1:%d' % (nlines + 4)] + ['main.%d:%d' % (i, nlines + 5) for i in range(5)] + ['vf_copy.0:6'],
+    ctx.add(Harness(name, VERIF + '/harness/C28_log.c', defines=defs + ['NLINES=%d' % nlines, 'STOPMODE=%d' % stopmode, 'VF_MAXCOPY=2'], unwind=4,
+                    unwindset=[LOOP + '.0:%d' % nb, 'sched.0:%d' % (nlines + 4), 'sched.1:%d' % (nlines + 4)] + ['main.%d:%d' % (i, nlines + 5) for i in range(5)] + ['vf_copy.0:4', 'x__ZNKSt7__cxx1112basic_stringIcSt11char_traitsIcESaIcEE16find_last_not_ofEPKcm.0:4'],
                     timeout=timeout, mem_gb=16, functions=FUN, stubs=STUBS, tier=tier,
                     bounds='%d line(s) submitted through Logger::send by any producers (level enabled/disabled chosen by the solver), stop() %s, every interleaving of producer steps with the logger thread at operation granularity; line text symbolic: 1..2 characters over {a, CR, LF}' % (
                         nlines, 'as one atomic call' if stopmode == 0 else 'as its two statements (request_stop; enqueue(marker)) with the logger thread schedulable in between'),
